@@ -144,6 +144,14 @@ theorem C02_bytes_are_the_serial_fold (f : Storage.Bytes) (ws : List (List Event
     Storage.readEvents Codec.classifyLine limit s.file = .ok (Proc.logAfter es s.commits s.commits.length) :=
   ProcB.bytes_are_serial_fold f ws nr limit ets es hf hfw hw s h
 
+/-- the refinement to the process model's one lock: every step of the lock-file system leaves "who is inside" as it was, or lets one process into an
+    empty section (`Proc.Step.lockOk`), or takes the one inside out (`unlockOk` / `crash`); and a flock refused as busy (`lockBusy`) means somebody is inside -/
+theorem C02_lock_file_steps_are_the_abstract_lock_steps {s t : LockFile.LSys} (hI : LockFile.Inv s) (h : LockFile.LStep s t) :
+    (∀ p, t.inside p ↔ s.inside p) ∨
+    (∃ p, (∀ q, ¬ s.inside q) ∧ t.inside p ∧ ∀ q, t.inside q → q = p) ∨
+    (∃ p, s.inside p ∧ ∀ q, ¬ t.inside q) :=
+  LockFile.step_abstracts hI h
+
 /-! ### `init` beside a writer (ErgoModel.Files) -/
 
 /-- `init` creates a missing log without truncating: dropped between any two calls of any writer's program it changes nothing that can be read -/
